@@ -135,7 +135,6 @@ var fnTable = []*fnSpec{
 	{name: "cos", args: []string{"n"}, ret: "n", ref: num1(always(math.Cos)), nullStrict: true},
 	{name: "atan", args: []string{"n"}, ret: "n", ref: num1(always(math.Atan)), nullStrict: true},
 	{name: "tanh", args: []string{"n"}, ret: "n", ref: num1(always(math.Tanh)), nullStrict: true},
-	{name: "atan2", args: []string{"n", "n"}, ret: "n", ref: num2(func(y, x float64) (float64, bool) { return math.Atan2(y, x), true }), nullStrict: true},
 	// round: half-way convention not stated by the guide -> differential + law |round(x)-x| <= 0.5, integer result
 	{name: "round", args: []string{"n"}, ret: "n", nullStrict: true, laws: func(a []rv, out rv) string {
 		if a[0].k == 'n' && out.k == 'n' && (math.Abs(out.f-a[0].f) > 0.5+1e-9 || out.f != math.Trunc(out.f)) {
